@@ -83,7 +83,8 @@ pub fn regex_tokinizer(tokinizer: &mut Tokinizer) {
 }
 
 pub fn language_tokinizer(tokinizer: &mut Tokinizer) {
-    let lowercase_data = tokinizer.data.to_lowercase();
+    /* Matches of the language parsers are positions in the original text */
+    let lowercase_data = crate::tools::map_case_keep_offsets(&tokinizer.data, false);
     for func in LANGUAGE_BASED_TOKEN_PARSER.iter() {
         func(tokinizer.config, tokinizer, &lowercase_data);
     }
